@@ -680,6 +680,10 @@ func (s *Server) readResponse() (*agent.Response, error) {
 	return response, nil
 }
 
+// maxBatchSizeHint bounds the capacity preallocated for a batch on the word of the UDF process.
+const maxBatchSizeHint = 1 << 16
+
+
 func (s *Server) handleResponse(response *agent.Response) error {
 	// Always reset the keepalive timer since we received a response
 	select {
@@ -707,7 +711,12 @@ func (s *Server) handleResponse(response *agent.Response) error {
 		return errors.New(msg.Error.Error)
 	case *agent.Response_Begin:
 		s.begin = msg.Begin
-		s.points = make([]edge.BatchPointMessage, 0, msg.Begin.Size)
+		// The size is only a hint from the UDF process, do not trust it with the allocation.
+		size := msg.Begin.Size
+		if size < 0 || size > maxBatchSizeHint {
+			size = maxBatchSizeHint
+		}
+		s.points = make([]edge.BatchPointMessage, 0, size)
 	case *agent.Response_Point:
 		if s.points != nil {
 			bp := edge.NewBatchPointMessage(
